@@ -72,6 +72,10 @@ def obligations(tier):
         o = ob("C07", "e2c.J%s" % need, "vt.harness.C07:joins", {"need": need, "steps": 6, "statuses": ["succeeded"]}, timeout=900)
         o["antecedents"] = ["c07_join_started"]
         obs.append(o)
+    # inbound transitions guarded by values that are truthy/falsy but not booleans
+    o = ob("C07", "e2c.raw.D04r", "vt.harness.C07:joins", {"did": "D04r", "steps": 5, "statuses": ["succeeded"], "bit_values": [True, False, None, "", [], 0, "x", 5, ["h"]]}, timeout=900)
+    o["antecedents"] = ["c07_join_started"]
+    obs.append(o)
     o = ob("C07", "e2c.pause.D12", "vt.harness.C07:joins", {"did": "D12", "steps": 6, "control": "pause", "resume_verbs": True}, timeout=900)
     o["antecedents"] = ["c07_unreachable"]
     obs.append(o)
